@@ -19,7 +19,7 @@ from vlib.runner import Violation, watchdog
 ID = 'C15'
 LEVEL = 'fault_enumeration'
 RULE = ('for seeded documents (prose with non-ASCII text, macros, several lines) a valid answer with 2-3 matches is built, then mutated: all single-field deletions (every path of the JSON tree), '
-        'type changes per field to {null,true,int,float,string,list,object}, string values with line breaks / control characters / markup / a lone surrogate, perturbations of offset/length/context offset/context length to {-1,0,1,len-1,len,len+1,len+2,len+3,10^6,-10^6}, byte truncations '
+        'type changes per field to {null,true,int,float,string,list,object}, string values with line breaks / control characters / markup / per-cent signs / backslash sequences / a lone surrogate, perturbations of offset/length/context offset/context length to {-1,0,1,len-1,len,len+1,len+2,len+3,10^6,-10^6,2^31,2^62,-2^62,10^30}, byte truncations '
         '(all positions inside multi-byte characters, every k-th elsewhere), degenerate answers (empty, [], {}, null, text, matches not a list, match not an object), all in-range (offset,length) pairs on a short text, answers with a long multi-line match followed by short ones inside it; '
         'modes rotate over plain/json/xml/xml-b/html (quick) or all five (thorough). oracle: exit status 0 or 1; no "Traceback" on stderr; status 1 => the shell\'s own diagnostic; '
         'status 0 => every reported location inside the LaTeX file. '
@@ -106,7 +106,8 @@ def mutations(plain, tier, rnd):
     # string values a proofreader may legitimately send: line breaks, tabs, markup, a lone surrogate (valid JSON escape)
     for p in ps:
         if isinstance(get_parent(base, p)[p[-1]], str):
-            for val, lab in (('line one\nline two', 'newline'), ('\ud800x', 'lone-surrogate'), ('a\tb\r\nc', 'control-characters'), ('"><b>&', 'markup')):
+            for val, lab in (('line one\nline two', 'newline'), ('\ud800x', 'lone-surrogate'), ('a\tb\r\nc', 'control-characters'), ('"><b>&', 'markup'),
+                             ('50% of it, 100%s %(x)d %%', 'percent-signs'), ('C:\\dots \\1 \\g<1> \\emph{x}', 'backslashes')):
                 a = copy.deepcopy(base)
                 get_parent(a, p)[p[-1]] = val
                 yield 'string:%s=%s' % ('/'.join(map(str, p)), lab), json.dumps(a, ensure_ascii=(lab == 'lone-surrogate')).encode('utf-8', 'surrogatepass'), True
